@@ -146,6 +146,11 @@ func OpaqueBytes(n int) []byte { return make([]byte, n) }
 // replay the inputs come from a model that already satisfies it.
 func Defined(pkgPath, typeName string, v int64) bool { return true }
 
+// Dur is a duration s*1e9 + ms*1e6 + ns with 0 <= s <= maxSeconds, 0 <= ms < 1000, 0 <= ns < 1e6.
+func Dur(label string, maxSeconds int64) time.Duration {
+	return time.Duration(int64(num(label+".s"))*1000000000 + int64(num(label+".ms"))*1000000 + int64(num(label+".ns")))
+}
+
 func Choose(label string, n int) int {
 	v := int(num(label))
 	if v < 0 || v >= n {
